@@ -268,7 +268,22 @@ func c14Impl(in []int64) []int64 {
 	case fUniqKeyIP:
 		return one(slicez.UniqueByKeyInPlace(c.slice(0), key))
 	case fFilter:
-		return one(slicez.Filter(c.slice(0), c.slice(1), pred))
+		// the predicate is asked about each element of s once, in order (a predicate with memory - "first occurrence",
+		// "take five" - depends on it): the questions are recorded; a different sequence is the token -1000035
+		src := append([]int{}, c.slice(1)...) // Filter(dst, s, fn)
+		var asked []int
+		res := slicez.Filter(c.slice(0), c.slice(1), func(v int) bool { asked = append(asked, v); return pred(v) })
+		out := one(res)
+		same := len(asked) == len(src)
+		for j := 0; same && j < len(src); j++ {
+			same = asked[j] == src[j]
+		}
+		// (not where dst is a shifted window of s's array: the writes to dst change elements of s before they are asked about)
+		shifted := len(c.sl) >= 2 && c.sl[0][0] != 0 && c.sl[0][0] == c.sl[1][0] && c.sl[0][1] != c.sl[1][1]
+		if !same && !shifted {
+			out = append(out, -1000035)
+		}
+		return out
 	case fFilterIP:
 		return one(slicez.FilterInPlace(c.slice(0), pred))
 	case fEqual:
@@ -746,7 +761,12 @@ func c14Gen(c *Ctx) {
 		}
 		f := selFns[i%5]
 		b := &c14B{f: f}
-		s1 := b.randWindow(t, 8, maxv)
+		ml := 8
+		if i%23 == 5 { // long slices: thresholds on the length (pre-sizing passes, small-input fast paths)
+			ml = 60 + r.Intn(160)
+			t.C.Count("long-slices", "60..220 elements")
+		}
+		s1 := b.randWindow(t, ml, maxv)
 		s2 := c14Nil
 		if f == fDiff || f == fInter {
 			switch r.Intn(8) {
@@ -783,7 +803,12 @@ func c14Gen(c *Ctx) {
 		}
 		f := ipFns[i%5]
 		b := &c14B{f: f}
-		s1 := b.randWindow(t, 8, maxv)
+		ml := 8
+		if i%23 == 5 { // long slices: thresholds on the length (pre-sizing passes, small-input fast paths)
+			ml = 60 + r.Intn(160)
+			t.C.Count("long-slices", "60..220 elements")
+		}
+		s1 := b.randWindow(t, ml, maxv)
 		b.sl = [][4]int{s1}
 		if f == fDiffIP || f == fInterIP {
 			s2 := c14Nil
